@@ -4,6 +4,7 @@
 #include <stdint.h>
 #include <stddef.h>
 #include <string.h>
+#include <stdlib.h>
 
 #ifdef VERIF_NATIVE
   /* native build: used by the fidelity differential and replay */
